@@ -603,7 +603,9 @@ def gen_exclusive_family(rng, VENDOR):
         same_flags = rng.random() < 0.7
         for j in range(ng):
             cd = [False] if same_flags else [rng.random() < 0.4]
-            items = [it(parents[j % len(parents)], kids=[it(kid, cd=cd)])]
+            # the header itself is cant_delete for every generator (as `interface ...` rows are by default), so
+            # exclusivity is decided at the child line
+            items = [it(parents[j % len(parents)], cd=[True], kids=[it(kid, cd=cd)])]
             tree = {row: {line: {}}}
             if rng.random() < 0.3:
                 tree[f"{base} 2"] = {line: {}}
